@@ -42,6 +42,13 @@ TMPL_SCAN = Proof('check_template_scan', impl='contracts/C06/tmplscan.impl.cpp',
                   mutants=[('angle_push_unguarded', r'(            else\n            \{\n)               if \(num_tokens >= max_token_count - 1\)\n               \{\n                  break;\n               \}\n(               tokens\[num_tokens\] = CT_ANGLE_OPEN;)', r'\1\2', 'postcondition|bounds|array'),
                            ('paren_push_unguarded', r'if \(num_tokens >= max_token_count - 1\)\n            \{\n               break;\n            \}\n            tokens\[num_tokens\] = CT_PAREN_OPEN;', 'tokens[num_tokens] = CT_PAREN_OPEN;', 'postcondition|bounds|array')])
 PROOFS.append(TMPL_SCAN)
+PROOFS.append(Proof('align_nl_cont_walk', impl='contracts/C06/alignnl2.impl.cpp', spec='contracts/C06/alignnl2.spec.c', harness='h_align_nl_cont', plain=True, no_contract=True, canaries=2,
+                    rules={'align_nl_cont': [('D8', [(r'numeric_limits<size_t>::max\(\)', '((size_t)-1)', 'std::numeric_limits<size_t>::max() (class templates with static members crash goto-cc)')])]},
+                    nondet_static='.*(optv_|g_nav_fuel).*', unwind=8, expect=['postcondition: align_nl_cont'], drop_flags=['--conversion-check'], functions=['align/nl_cont.cpp:align_nl_cont'],
+                    cbmc_flags=['--bounds-check', '--pointer-check', '--div-by-zero-check', '--undefined-shift-check', '--unwinding-assertions'],
+                    assumed=['chunk navigation (fuel 5); stepping forward from the NullChunk is an assertion', 'ChunkStack: holds what align_add put on it'],
+                    note='size_t arithmetic `align_col - 1 + spaces` wraps by design of the code (unsigned); walks unwound completely with unwinding assertions',
+                    mutants=[('walk_ignores_end_of_list', r'while \(  pc->IsNotNullChunk\(\)\n         && pc->IsNot\(CT_NEWLINE\)', 'while (  pc->IsNot(CT_NEWLINE)', 'sentinel|unwinding')]))
 PROOFS.append(Proof('find_start_brace', impl='contracts/C06/findbrace.impl.cpp', spec='contracts/C06/findbrace.spec.c', harness='h_find_start_brace', plain=True, no_contract=True, canaries=2, rules={},
                     nondet_static='.*(g_nav_fuel).*', unwind=9, expect=['postcondition: find_start_brace'], functions=['rewrite_infinite_loops.cpp:find_start_brace'],
                     assumed=['chunk navigation: an arbitrary chunk per step, the NullChunk after at most 6 steps (navigation fuel); stepping forward from the NullChunk is an assertion'],
@@ -62,7 +69,7 @@ EXPLANATION = ('Kernel of C06. CBMC\'s automatic obligations (container precondi
                'are the property\'s "never by a memory-safety/undefined-behaviour fault", and the decreases clauses of the loop contracts its "terminates", for every byte '
                'vector / code-point sequence of any length: all decoders of src/unicode.cpp and the white-space primitives of the tokenizer, with progress contracts '
                '(true => cursor advanced, false => cursor restored exactly). Malformed UTF-8/UTF-16 is refused.')
-K = ['K9 parse_cr_string (raw string literals): progress or restore, termination of all four loops (also when the data ends inside the literal), tag_compare only called with both delimiters inside the data', 'K8 find_start_brace (mod_infinite_loop): the walk to the body of a loop ends on every list', 'K7 check_template (forward scan, one iteration under the loop invariant): no access to the bracket stack tokens[max_token_count] leaves the array, however deeply the input nests < and (', 'K5 newlines_eat_start_end: no chunk is deleted twice or touched after its deletion, also when the file is a single newline chunk (head == tail)',
+K = ['K10 align_nl_cont: the walk along a continued line ends on every list (also when the file ends inside the continued #define), the stack is emptied', 'K9 parse_cr_string (raw string literals): progress or restore, termination of all four loops (also when the data ends inside the literal), tag_compare only called with both delimiters inside the data', 'K8 find_start_brace (mod_infinite_loop): the walk to the body of a loop ends on every list', 'K7 check_template (forward scan, one iteration under the loop invariant): no access to the bracket stack tokens[max_token_count] leaves the array, however deeply the input nests < and (', 'K5 newlines_eat_start_end: no chunk is deleted twice or touched after its deletion, also when the file is a single newline chunk (head == tail)',
      'K6 configuration values: read_number / Option<bool>::read never read outside the value text, for every text (including the empty one)',
      'K4 uncrustify_file: output_text exactly once and last; an embedded NUL exits before uncrustify_start', 'K1 unicode.cpp decoders: safe and terminating for any length; |out| <= |in|', 'K2 tokenizer white-space primitives: safe, terminating, progress/restore']
 G = ['tokenize() main loop terminates given progress of parse_next: parse_next\'s progress contract is proved only for the leaf callees listed here; for parse_number, parse_string, parse_word, parse_comment, ... it is an ASSUMED contract',
